@@ -1,23 +1,30 @@
 #!/bin/bash
-# verify_seed.sh <id> <outdir-with-patch.diff,demo.sh,meta.json>  -> copies to /verif/seeded/<id>/ with verification record
+# verify_seed.sh <id> <dir-with-patch.diff,demo.sh,meta.json>  -> prints a verification record (/tmp/vs/<id>.result)
 # Independent confirmation in a fresh scratch worktree of /repo HEAD: patch applies, builds, the unedited test
 # suite passes, the demo FAILs with the patch and PASSes without it.  The worktree is removed afterwards.
+# meta.json "demo_arg": "binary" (default; demo.sh <ninja binary>) or "srcroot" (demo.sh <source tree root>).
 set -u
-id=$1; src=$2
+id=$1; src=$(readlink -f $2)
 wt=/tmp/vs/$id
 rm -rf $wt; mkdir -p /tmp/vs
+git -C /repo worktree prune
 git -C /repo worktree add -q --detach $wt HEAD || exit 2
 cd $wt
 res=/tmp/vs/$id.result; : > $res
-if ! git apply $src/patch.diff 2>>$res; then echo "apply: FAILED" >> $res; git -C /repo worktree remove --force $wt; exit 1; fi
+if ! git apply $src/patch.diff 2>>$res; then echo "apply: FAILED" >> $res; cd /; git -C /repo worktree remove --force $wt; cat $res; exit 1; fi
 echo "apply: ok" >> $res
-if cmake -S $wt -B $wt/build -G Ninja -DCMAKE_BUILD_TYPE=Release >/dev/null 2>&1 && cmake --build $wt/build >/dev/null 2>&1; then echo "build: ok" >> $res; else echo "build: FAILED" >> $res; fi
+if cmake -S $wt -B $wt/build -G Ninja -DCMAKE_BUILD_TYPE=Release >/dev/null 2>&1 && cmake --build $wt/build -- -j${VS_JOBS:-6} >/dev/null 2>&1; then echo "build: ok" >> $res; else echo "build: FAILED" >> $res; fi
 mkdir -p $wt/tmp
 ( cd $wt/build && TMPDIR=$wt/tmp ./ninja_test 2>&1 | tail -3 | tr '\n' ' ' ) > $wt/tests.txt
 echo "tests: $(cat $wt/tests.txt)" >> $res
-TMPDIR=$wt/tmp timeout 300 $src/demo.sh $wt/build/ninja > $wt/demo_patched.txt 2>&1; echo "demo_patched_rc: $?" >> $res
-TMPDIR=$wt/tmp timeout 300 $src/demo.sh /repo/_build/ninja > $wt/demo_base.txt 2>&1; echo "demo_base_rc: $?" >> $res
-tail -2 $wt/demo_patched.txt | sed 's/^/  patched: /' >> $res
-tail -1 $wt/demo_base.txt | sed 's/^/  base: /' >> $res
+arg=$(python3 -c "import json;print(json.load(open('$src/meta.json')).get('demo_arg','binary'))" 2>/dev/null || echo binary)
+if [ "$arg" = srcroot ]; then pa=$wt; ba=/repo; else pa=$wt/build/ninja; ba=/repo/_build/ninja; fi
+chmod +x $src/demo.sh
+for i in 1 2; do
+TMPDIR=$wt/tmp timeout 300 $src/demo.sh $pa > $wt/demo_patched.txt 2>&1; echo "demo_patched_rc[$i]: $?" >> $res
+TMPDIR=$wt/tmp timeout 300 $src/demo.sh $ba > $wt/demo_base.txt 2>&1; echo "demo_base_rc[$i]: $?" >> $res
+done
+tail -2 $wt/demo_patched.txt | cut -c1-300 | sed 's/^/  patched: /' >> $res
+tail -1 $wt/demo_base.txt | cut -c1-300 | sed 's/^/  base: /' >> $res
 cd /; git -C /repo worktree remove --force $wt
 cat $res
